@@ -207,7 +207,8 @@ def oracle_tripwire(run):
 
 def register(PROPS, COMPONENTS):
     COMPONENTS["tripwire"] = dict(client="tripwire", driver="tripwire", directed_runs=6, quick_runs=1500,
-                                  thorough_runs=40000, oracle=oracle_tripwire)
+                                  thorough_runs=40000, oracle=oracle_tripwire,
+                                  cov_headers=["gmlc/concurrency/TripWire.hpp"])
     PROPS["C19"] = dict(
         lean_files=["ConcVerif/Props/C19.lean"], components=["tripwire"], stage="B",
         level_text="Lean 4 theorems (kernel-checked; any number of lines, trigger objects, detectors, threads, moves and "
